@@ -460,10 +460,21 @@ func Check(o CheckOpts) int {
 		reported[v.Key()] = true
 		rf := &ReplayFile{Property: o.Prop, Scenario: f.Scen, Oracle: v.Oracle, Class: v.Class, Detail: v.Detail, Tier: o.Tier,
 			SeedBase: o.Seed, SeedIndex: f.Index, Tree: o.Tree, FatalOnly: true, Note: "the process under simulation died with a fatal runtime error; replay is by seed"}
+		if v.Class == "died" {
+			// no Go runtime failure in the worker's last words: it was killed or could not start
+			fmt.Printf("HARNESS-ERROR: a worker died at %s index %d without a runtime failure message: %s\n", f.Scen, f.Index, firstLine(lastLines(f.Stderr, 3)))
+			exit = 2
+			continue
+		}
 		path := writeReplay(o, rf)
-		code, _ := runSelf(o, nil, "replay", "-file", path, "-quiet")
-		if code == 0 || code == 1 {
-			fmt.Printf("HARNESS-ERROR: fatal error at %s index %d did not reproduce on replay (exit %d)\n", f.Scen, f.Index, code)
+		limit := 15 * time.Minute
+		if v.Class == "watchdog" {
+			limit = 150 * time.Second // the run was killed after 120 s without progress: a replay that is still going after 150 s hangs the same way
+		}
+		code, _ := runSelfLimit(o, limit, nil, "replay", "-file", path, "-quiet")
+		if code == 0 || code == 1 || (code == 124) != (v.Class == "watchdog") {
+			fmt.Printf("HARNESS-ERROR: fatal error (%s) at %s index %d did not reproduce on replay (exit %d)\n", v.Class, f.Scen, f.Index, code)
+			os.Remove(path)
 			exit = 2
 			continue
 		}
@@ -567,13 +578,28 @@ func fatalClass(stderr string) string {
 	return "died"
 }
 
+// runSelf runs this binary with args; a process that is still running after
+// limit is killed and reported as exit code 124.
 func runSelf(o CheckOpts, stdin io.Reader, args ...string) (int, string) {
+	return runSelfLimit(o, 15*time.Minute, stdin, args...)
+}
+
+func runSelfLimit(o CheckOpts, limit time.Duration, stdin io.Reader, args ...string) (int, string) {
 	cmd := exec.Command(o.Self, args...)
 	cmd.Stdin = stdin
 	var out bytes.Buffer
 	cmd.Stdout = &out
 	cmd.Stderr = &out
-	err := cmd.Run()
+	timedOut := false
+	if err := cmd.Start(); err != nil {
+		return 3, err.Error()
+	}
+	timer := time.AfterFunc(limit, func() { timedOut = true; cmd.Process.Kill() })
+	err := cmd.Wait()
+	timer.Stop()
+	if timedOut {
+		return 124, out.String()
+	}
 	code := 0
 	if err != nil {
 		if ee, ok := err.(*exec.ExitError); ok {
